@@ -68,7 +68,7 @@ def generate(rng, tier):
     elif cls in ("frame", "geojson"):
         nrow = rng.choice([0, 1, 2, 5, 12, 120])
         ncol = rng.choice([0, 1, 2, 4, 8]) if cls == "frame" else rng.choice([0, 1, 3])
-        names = rng.sample(["a", "b", "c", "value", "long_column_name_here", "日本", "ｗｉｄｅ", "x y", "é", "k1", "k2", "n", "\u2764\ufe0f"], ncol)
+        names = rng.sample(["a", "b", "c", "value", "long_column_name_here", "日本", "ｗｉｄｅ", "x y", "é", "k1", "k2", "n", "\u2764\ufe0f", ""], ncol)
         spec = [(nm, k, _values(rng, k, nrow)) for nm, k in ((nm, rng.choice(KINDS)) for nm in names)]
         case["spec"] = spec
         opts = {}
@@ -144,10 +144,22 @@ def _parse_frame(res, text, names, labels, nrow, max_rows, ctx):
         headers.append((b[0], b[1]))
     # every column name and its dtype label, in column order across blocks
     pos_block, pos_char = 0, 0
+    lab_char = 0
     for nm, lab in zip(names, labels):
         found = False
         while pos_block < len(headers):
             h = headers[pos_block][0]
+            if nm == "":
+                # an unnamed column shows as a blank header cell: it is located by its dtype label instead (next occurrence in this or a later block)
+                j = headers[pos_block][1].find(lab, lab_char)
+                if j >= 0:
+                    found = True
+                    lab_char = j + len(lab)
+                    pos_char = max(pos_char, min(len(h), j))
+                    break
+                pos_block += 1
+                pos_char = lab_char = 0
+                continue
             i = h.find(nm, pos_char)
             if i >= 0:
                 found = True
@@ -157,7 +169,7 @@ def _parse_frame(res, text, names, labels, nrow, max_rows, ctx):
                     return
                 break
             pos_block += 1
-            pos_char = 0
+            pos_char = lab_char = 0
         if not found:
             res.violate("frame:column-name-missing", f"column {nm!r} not found in header lines {[h for h, _ in headers]}; {ctx}")
             return
